@@ -1,7 +1,91 @@
 From Coq Require Import List Arith.
 Import ListNotations.
-From UJ Require Import Base.Graph Cache.Transform.
+From UJ Require Import Engine.Engine Base.Graph Cache.Prune Cache.Transform Cache.TransformProofs.
 
-Theorem C09_placeholder : forall c e, next_id c e = if estale e then S (S (S c)) else S (S c).
-Proof. reflexivity. Qed.
-Print Assumptions C09_placeholder.
+(** Setting ([tctx]): a well-formed plan [p], fresh ids from [c] on, registry entries [es] on distinct
+    plan nodes; [q = add_all p c es] is the plan after [_add_value_store] of every entry and
+    [fst (physical p c es output)] the pruned physical plan that the engine executes (C01: the engine
+    starts a node only after everything that reaches it has finished). *)
+
+(** A rebuilt stored value: value -> write -> read-back, with the store as a literal argument. *)
+Theorem C09_write_then_read :
+  forall p c es e ce, tctx p c es -> In (e, ce) (entry_ids c es) ->
+  let q := add_all p c es in
+  In (mke (lit_id ce) (read_id ce) (KPos 0)) (pedges q) /\
+  (estale e = true -> In (mke (write_id ce) (read_id ce) KDep) (pedges q)) /\
+  (estale e = true -> esource e = false ->
+   In (mke (enode e) (write_id ce) (KPos 1)) (pedges q) /\
+   In (mke (lit_id ce) (write_id ce) (KPos 0)) (pedges q)).
+Proof. exact TransformProofs.C09_write_then_read. Qed.
+Print Assumptions C09_write_then_read.
+
+(** Every argument edge that left a registry node now leaves its read node ... *)
+Theorem C09_consumers_on_read :
+  forall p c es e ce s k, tctx p c es -> In (e, ce) (entry_ids c es) ->
+  In (mke (enode e) s k) (pedges p) -> k <> KDep ->
+  In (mke (read_id ce) s k) (pedges (add_all p c es)) /\
+  ~ In (mke (enode e) s k) (pedges (add_all p c es)).
+Proof. exact TransformProofs.C09_consumers_on_read. Qed.
+Print Assumptions C09_consumers_on_read.
+
+(** ... and conversely no consumer receives a registry node's in-memory result: every argument edge into
+    an original node comes from an unregistered original node or from a read node. *)
+Theorem C09_value_is_read :
+  forall p c es x, tctx p c es -> In x (pedges (add_all p c es)) -> In (edst x) (pnodes p) -> ekind x <> KDep ->
+  (In x (pedges p) /\ ~ In (esrc x) (map enode es)) \/
+  exists e ce, In (e, ce) (entry_ids c es) /\ esrc x = read_id ce /\
+               In (mke (enode e) (edst x) (ekind x)) (pedges p).
+Proof. exact C09_args_only_from_reads. Qed.
+Print Assumptions C09_value_is_read.
+
+(** Nodes that merely depend on a registry node wait for its write when it is rebuilt. *)
+Theorem C09_dependents_on_write :
+  forall p c es e ce s, tctx p c es -> In (e, ce) (entry_ids c es) -> In (mke (enode e) s KDep) (pedges p) ->
+  let q := add_all p c es in
+  ~ In (mke (enode e) s KDep) (pedges q) /\
+  (estale e = true -> In (mke (write_id ce) s KDep) (pedges q)) /\
+  (estale e = false -> ~ In (mke (read_id ce) s KDep) (pedges q)).
+Proof. exact TransformProofs.C09_dependents_on_write. Qed.
+Print Assumptions C09_dependents_on_write.
+
+(** In the pruned physical plan a surviving consumer is reached by value -> write -> read-back -> consumer. *)
+Theorem C09_consumer_in_physical_plan :
+  forall p c es output e ce s k, tctx p c es -> In (e, ce) (entry_ids c es) ->
+  In (mke (enode e) s k) (pedges p) -> k <> KDep ->
+  let r := fst (physical p c es output) in
+  In s (pnodes r) ->
+  In (mke (read_id ce) s k) (pedges r) /\ ~ In (mke (enode e) s k) (pedges r) /\
+  In (read_id ce) (pnodes r) /\
+  (estale e = true -> esource e = false ->
+   In (mke (enode e) (write_id ce) (KPos 1)) (pedges r) /\
+   reach (to_graph r) (enode e) (write_id ce) /\
+   reach (to_graph r) (write_id ce) (read_id ce) /\
+   reach (to_graph r) (read_id ce) s).
+Proof. exact TransformProofs.C09_consumer_in_physical_plan. Qed.
+Print Assumptions C09_consumer_in_physical_plan.
+
+(** Downstream stored values are rebuilt after upstream ones; a stale dependent source is read only after
+    the (re)writes and the unregistered calls it depends on. *)
+Theorem C09_stale_source_after_deps :
+  forall p c es e ce e2 c2, tctx p c es -> acyclic (to_graph p) ->
+  In (e, ce) (entry_ids c es) -> estale e = true -> esource e = true ->
+  In (e2, c2) (entry_ids c es) -> estale e2 = true -> edge (to_graph p) (enode e2) (enode e) ->
+  reach (to_graph (add_all p c es)) (write_id c2) (read_id ce).
+Proof. exact TransformProofs.C09_stale_source_after_deps. Qed.
+Print Assumptions C09_stale_source_after_deps.
+
+Theorem C09_stale_source_order_in_physical :
+  forall p c es output e ce pr, tctx p c es -> In (e, ce) (entry_ids c es) -> estale e = true -> esource e = true ->
+  edge (to_graph p) pr (enode e) -> ~ In pr (map enode es) ->
+  let r := fst (physical p c es output) in
+  In pr (pnodes r) -> In (read_id ce) (pnodes r) -> reach (to_graph r) pr (read_id ce).
+Proof. exact TransformProofs.C09_stale_source_order_in_physical. Qed.
+Print Assumptions C09_stale_source_order_in_physical.
+
+(** The run's output for a registry node is its read node: the value returned is what the store's read returns. *)
+Theorem C09_output_is_read_node :
+  forall p c es e ce, tctx p c es -> In (e, ce) (entry_ids c es) ->
+  snd (physical p c es (Some (enode e))) = Some (read_id ce) /\
+  In (read_id ce) (pnodes (fst (physical p c es (Some (enode e))))).
+Proof. exact TransformProofs.C09_output_is_read_node. Qed.
+Print Assumptions C09_output_is_read_node.
